@@ -104,7 +104,7 @@ theorem rounds (g : Globals) (hg : g.dialect = .mysql) (hio : g.ignoreOrder = fa
     obtain ⟨h, dbH, hh, hes, hpl, hex, heq⟩ := ih (fun q hq => hrev q (List.mem_cons_of_mem _ hq)) hco
     obtain ⟨hpe, hpp, hpx⟩ := hrev p (by simp)
     have hsc' : UpScope dbH p.2 := hsc.of_equiv heq
-    obtain ⟨d, out, hd, hU, ⟨db', he, hequ⟩, _⟩ := schema_spec_up g hg hio false h p.1 dbH p.2 hes hpe hpl hpp hex hpx
+    obtain ⟨d, out, hd, hU, ⟨db', he, hequ, hnmU⟩, _⟩ := schema_spec_up g hg hio false h p.1 dbH p.2 hes hpe hpl hpp hex hpx
       (fun tb htb => (hsc'.names tb htb).2) hsc'.both
     have hvoc := schema_up_vocab g hg hio false h p.1 dbH p.2 hes hpe hpl hpp hex hpx
       (fun tb htb => (hsc'.names tb htb).1)
